@@ -13,7 +13,7 @@ use serde::{Deserialize, Serialize};
 pub fn def() -> PropDef {
     PropDef {
         id: "C04",
-        rule: "generated: even shard size 2..330 (all tails, plus multi-block sizes up to 80 KiB) x small/pow2-edge configuration x codec family x engine x data x received set; half of the cases run on a reused object whose retained working memory was poisoned (padding lanes then hold noise). oracle: every output has exactly the shard size; for all slots (size<=66) or sampled slots, coding the 2-byte shards made of that slot alone (documented byte placement) gives exactly that slot of the big-shard outputs, for encode and decode. non-trivial: size%64 != 0 (tail) and at least one original restored; distinct by full case",
+        rule: "generated: even shard size 2..330 (all tails, plus multi-block sizes up to 80 KiB) x small/pow2-edge configuration (one case in five: any count class up to thousands of shards, with shards up to ~2 KiB, i.e. many AND long) x codec family x engine x data x received set; half of the cases run on a reused object whose retained working memory was poisoned (padding lanes then hold noise). oracle: every output has exactly the shard size; for all slots (size<=66) or sampled slots, coding the 2-byte shards made of that slot alone (documented byte placement) gives exactly that slot of the big-shard outputs, for encode and decode. non-trivial: size%64 != 0 (tail) and at least one original restored; distinct by full case",
         assumptions: &["poison only overwrites bytes that survive a resize (real stale bytes)"],
         parts,
     }
@@ -29,10 +29,12 @@ pub struct SlotCase {
     pub poison: bool,
 }
 
-fn strategy(_t: Tier) -> BoxedStrategy<SlotCase> {
+fn strategy(t: Tier) -> BoxedStrategy<SlotCase> {
     gen::kind_any()
-        .prop_flat_map(|kind| {
+        .prop_flat_map(move |kind| {
             let counts = prop_oneof![
+                // all count classes of the other checks, up to thousands of shards (several chunks of >= 1024 shards)
+                2 => gen::counts(kind, t.pick(1000, 2000)).prop_map(|(k, r, _)| (k, r)),
                 3 => (1usize..=8, 1usize..=8),
                 3 => (1usize..=40, 1usize..=40),
                 2 => ((0u32..=5, 0usize..3), (0u32..=5, 0usize..3)).prop_map(|((a, d), (b, e))| {
@@ -48,8 +50,14 @@ fn strategy(_t: Tier) -> BoxedStrategy<SlotCase> {
             ];
             (counts, size, gen::engine_for(kind), gen::data_spec(), gen::recv_spec(), any::<bool>()).prop_map(
                 move |((k, r), b, eng, data, recv, poison)| {
-                    // long shards only with few of them
-                    let b = if b > 1040 && k + r > 24 { 2 + b % 1040 / 2 * 2 } else { b };
+                    // long shards only with few of them; hundreds to thousands of shards: up to ~2 KiB, 8 MiB in total
+                    let b = if k + r > 100 {
+                        (2 + b % 2200 / 2 * 2).min((8usize << 20) / (k + r) / 2 * 2).max(2)
+                    } else if b > 1040 && k + r > 24 {
+                        2 + b % 1040 / 2 * 2
+                    } else {
+                        b
+                    };
                     SlotCase { kind, eng, cfg: Cfg { k, r, b }, data, recv, poison }
                 },
             )
@@ -168,6 +176,8 @@ fn check(c: &SlotCase, st: &mut Stats) -> CheckResult {
     st.classf("kind", c.kind.name());
     st.classf("engine", c.eng.name());
     st.classf("size", gen::size_class(b));
+    st.classf("counts", gen::count_class(k, r));
+    st.classf("many_and_long", k + r > 700 && b > 512);
     st.classf("tail_bytes", if b % 64 == 0 { "0".to_string() } else { format!("{}", ((b % 64) / 8) * 8) });
     st.classf("poison", c.poison);
     if b % 64 != 0 && !restored.is_empty() {
